@@ -336,3 +336,114 @@ Theorem erase_program_idem :
 Proof. exact ShapeEmit.erase_program_idem. Qed.
 Print Assumptions erase_program_idem.
 
+
+(* ---- parser half (ShapeParse.v): the parser reads token types and literals only. parse_program_commutes_with_erasure: parsing
+   the position-erased token list gives the erased result (Ok programs erased, errors with erased positions); hence
+   parser_reads_shapes_only / equal_shapes_parse_agree: two token lists of equal shapes are accepted or rejected together, with
+   programs of equal erasure / errors of the same message - for the real format() operator too (parse_format_erase_real).
+   COMPOSED (ShapeCompose.v), no hypothesis left: same_tokens_same_output, leading_ / layout_between_tokens_ /
+   trailing_layout_never_changes_the_output: inserting or removing spaces, tabs, newlines and comments between tokens never
+   changes the compiled output without line markers (the same text; or an error with the same message; or the same
+   failure kind), for every configuration, mode and both -optimize settings. ---- *)
+From Pory Require ShapeParse. From Pory Require Import ShapeCompose. Open Scope list_scope.
+Theorem parse_program_commutes_with_erasure :
+  forall (autovars : list (text * Parser.autovar)) (switches : list (text * text)) (env_errors : bool) (fc : Format.fontcfg) 
+    (cli_font : text) (cli_maxlen : Z) (ts : list token),
+  Parser.parse_program autovars switches env_errors (Format.parse_format fc cli_font cli_maxlen env_errors) (map ShapeParse.erase_tok ts) =
+  ShapeParse.erase_res ShapeParse.erase_program
+    (Parser.parse_program autovars switches env_errors (Format.parse_format fc cli_font cli_maxlen env_errors) ts).
+Proof. exact ShapeParse.parse_program_commutes_with_erasure. Qed.
+Print Assumptions parse_program_commutes_with_erasure.
+
+Theorem parser_reads_shapes_only :
+  forall (autovars : list (text * Parser.autovar)) (switches : list (text * text)) (env_errors : bool) (fc : Format.fontcfg) 
+    (cli_font : text) (cli_maxlen : Z) (ts1 ts2 : list token),
+  map shape ts1 = map shape ts2 ->
+  ShapeParse.erase_res ShapeParse.erase_program
+    (Parser.parse_program autovars switches env_errors (Format.parse_format fc cli_font cli_maxlen env_errors) ts1) =
+  ShapeParse.erase_res ShapeParse.erase_program
+    (Parser.parse_program autovars switches env_errors (Format.parse_format fc cli_font cli_maxlen env_errors) ts2).
+Proof. exact ShapeParse.parser_reads_shapes_only. Qed.
+Print Assumptions parser_reads_shapes_only.
+
+Theorem equal_shapes_parse_agree :
+  forall (autovars : list (text * Parser.autovar)) (switches : list (text * text)) (env_errors : bool) (fc : Format.fontcfg) 
+    (cli_font : text) (cli_maxlen : Z) (ts1 ts2 : list token),
+  map shape ts1 = map shape ts2 ->
+  ShapeParse.parse_agree (Parser.parse_program autovars switches env_errors (Format.parse_format fc cli_font cli_maxlen env_errors) ts1)
+    (Parser.parse_program autovars switches env_errors (Format.parse_format fc cli_font cli_maxlen env_errors) ts2).
+Proof. exact ShapeParse.equal_shapes_parse_agree. Qed.
+Print Assumptions equal_shapes_parse_agree.
+
+Theorem equal_shapes_accepted_together :
+  forall (autovars : list (text * Parser.autovar)) (switches : list (text * text)) (env_errors : bool) (fc : Format.fontcfg) 
+    (cli_font : text) (cli_maxlen : Z) (ts1 ts2 : list token),
+  map shape ts1 = map shape ts2 ->
+  (exists p1 : program,
+     Parser.parse_program autovars switches env_errors (Format.parse_format fc cli_font cli_maxlen env_errors) ts1 = Parser.Ok p1) <->
+  (exists p2 : program,
+     Parser.parse_program autovars switches env_errors (Format.parse_format fc cli_font cli_maxlen env_errors) ts2 = Parser.Ok p2).
+Proof. exact ShapeParse.equal_shapes_accepted_together. Qed.
+Print Assumptions equal_shapes_accepted_together.
+
+Theorem equal_shapes_same_error :
+  forall (autovars : list (text * Parser.autovar)) (switches : list (text * text)) (env_errors : bool) (fc : Format.fontcfg) 
+    (cli_font : text) (cli_maxlen : Z) (ts1 ts2 : list token) (e1 : Parser.perr),
+  map shape ts1 = map shape ts2 ->
+  Parser.parse_program autovars switches env_errors (Format.parse_format fc cli_font cli_maxlen env_errors) ts1 = Parser.Err e1 ->
+  exists e2 : Parser.perr,
+    Parser.parse_program autovars switches env_errors (Format.parse_format fc cli_font cli_maxlen env_errors) ts2 = Parser.Err e2 /\
+    Parser.emsg e2 = Parser.emsg e1.
+Proof. exact ShapeParse.equal_shapes_same_error. Qed.
+Print Assumptions equal_shapes_same_error.
+
+Theorem parse_format_erase_real :
+  forall (fc : Format.fontcfg) (cli_font : text) (cli_maxlen : Z) (env_errors : bool) (ts : list token),
+  Format.parse_format fc cli_font cli_maxlen env_errors (map ShapeParse.erase_tok ts) =
+  ShapeParse.erase_res (ShapeParse.ep4 ShapeParse.erase_tok ShapeParse.same ShapeParse.same (map ShapeParse.erase_tok))
+    (Format.parse_format fc cli_font cli_maxlen env_errors ts).
+Proof. exact ShapeParse.parse_format_erase_real. Qed.
+Print Assumptions parse_format_erase_real.
+
+Theorem same_tokens_same_output :
+  forall (hl hd hs : N -> bool) (autovars : list (text * Parser.autovar)) (switches : list (text * text)) (ee : bool) 
+    (fc : Format.fontcfg) (cli_font : text) (cli_maxlen : Z) (optimize : bool) (src1 src2 : text),
+  map shape (lex hl hd hs src1) = map shape (lex hl hd hs src2) ->
+  agree_outcome (Compile.compile hl hd hs autovars switches ee fc cli_font cli_maxlen optimize None src1)
+    (Compile.compile hl hd hs autovars switches ee fc cli_font cli_maxlen optimize None src2).
+Proof. exact ShapeCompose.same_tokens_same_output. Qed.
+Print Assumptions same_tokens_same_output.
+
+Theorem leading_layout_never_changes_the_output :
+  forall (hl hd hs : N -> bool) (autovars : list (text * Parser.autovar)) (switches : list (text * text)) (ee : bool) 
+    (fc : Format.fontcfg) (cli_font : text) (cli_maxlen : Z) (optimize : bool) (g s : list N),
+  gap g ->
+  agree_outcome (Compile.compile hl hd hs autovars switches ee fc cli_font cli_maxlen optimize None (g ++ s))
+    (Compile.compile hl hd hs autovars switches ee fc cli_font cli_maxlen optimize None s).
+Proof. exact ShapeCompose.leading_layout_never_changes_the_output. Qed.
+Print Assumptions leading_layout_never_changes_the_output.
+
+Theorem layout_between_tokens_never_changes_the_output :
+  forall (hl hd hs : N -> bool) (autovars : list (text * Parser.autovar)) (switches : list (text * text)) (ee : bool) 
+    (fc : Format.fontcfg) (cli_font : text) (cli_maxlen : Z) (optimize : bool) (p r g : list N) (k : nat),
+  r <> [] ->
+  gap g ->
+  ~ fuses p g ->
+  reaches hl hd hs r k (init (p ++ r)) ->
+  agree_outcome (Compile.compile hl hd hs autovars switches ee fc cli_font cli_maxlen optimize None (p ++ g ++ r))
+    (Compile.compile hl hd hs autovars switches ee fc cli_font cli_maxlen optimize None (p ++ r)).
+Proof. exact ShapeCompose.layout_between_tokens_never_changes_the_output. Qed.
+Print Assumptions layout_between_tokens_never_changes_the_output.
+
+Theorem trailing_layout_never_changes_the_output :
+  forall (hl hd hs : N -> bool) (autovars : list (text * Parser.autovar)) (switches : list (text * text)) (ee : bool) 
+    (fc : Format.fontcfg) (cli_font : text) (cli_maxlen : Z) (optimize : bool) (p r g : list N) (k : nat),
+  r <> [] ->
+  reaches hl hd hs r k (init (p ++ r)) ->
+  tgap g ->
+  ~ fuses p g ->
+  agree_outcome (Compile.compile hl hd hs autovars switches ee fc cli_font cli_maxlen optimize None (p ++ g))
+    (Compile.compile hl hd hs autovars switches ee fc cli_font cli_maxlen optimize None p).
+Proof. exact ShapeCompose.trailing_layout_never_changes_the_output. Qed.
+Print Assumptions trailing_layout_never_changes_the_output.
+
